@@ -20,9 +20,17 @@
      * global "res" = what the library function returned, global "tin" = the input table (by
        reference: read after the run).  A global that holds nil is not listed.
 
+     * a table built by the HOST (native c09_input) travels in the case as a tree ([hostin]): the
+       input the script logs must be that table.
+
    codes: 1 the run differs from RefSem's prediction; 2 the specification rejects the observation
-   (wrong result, wrong sequence of callback invocations, input changed, crash); 3 the case is
-   outside the checker's precondition (malformed log, not well-scoped, semantics out of fuel). *)
+   (wrong result, wrong sequence of callback invocations, input changed, the script did not receive
+   the table the host built, crash); 3 the case is outside the checker's precondition (malformed
+   log, not well-scoped, semantics out of fuel); 10 a code 2 in a case of the class [unrooted]:
+   the input was built by Vm::insert_value under a memory limit small enough for collections
+   (known finding F-1 in known_findings.json: insert_value holds the keys and nested values it
+   creates unrooted while it allocates the next ones, so the table handed to the script can miss
+   entries or hold freed keys - the library is then applied to a corrupt table). *)
 From Coq Require Import Floats.SpecFloat.
 From Cao Require Export CheckUtil CardAst RefSem RefScope C01Check StdSpec.
 From Cao Require Import Value.
@@ -34,7 +42,8 @@ Inductive c09fn :=
 (* predict: compare with RefSem;  spec: apply the specification;  touches: the callback changes
    the input table itself (then "input unchanged" is not demanded) *)
 Inductive c09case :=
-| StdCase (f : c09fn) (predict spec touches : bool) (m : module) (host : list str) (o : c01obs).
+| StdCase (f : c09fn) (predict spec touches : bool) (hostin : option tree) (unrooted : bool)
+          (m : module) (host : list str) (o : c01obs).
 
 Definition stdcase := StdCase.
 Definition ffilter := FFilter.
@@ -193,8 +202,8 @@ Definition expect (f : c09fn) (cb : list tree -> tree) (es : list (tree * tree))
 Definition native_backed (f : c09fn) : bool :=
   match f with FFilter | FMap | FAny => false | _ => true end.
 
-Definition spec_check (f : c09fn) (touches : bool) (k : okind) (g : list (str * tree))
-           (l : list (str * list tree)) : list N :=
+Definition spec_check (f : c09fn) (touches : bool) (hostin : option tree) (k : okind)
+           (g : list (str * tree)) (l : list (str * list tree)) : list N :=
   match flat_log l with
   | None => [3]
   | Some fl =>
@@ -202,6 +211,7 @@ Definition spec_check (f : c09fn) (touches : bool) (k : okind) (g : list (str * 
       | None => [3]
       | Some {| p_in := None |} => [3]
       | Some {| p_in := Some tin0; p_calls := calls |} =>
+          if negb (match hostin with Some t => tree_eqb t tin0 | None => true end) then [2] else
           if negb (okind_eqb k KOk) then [2] else
           let res := global s_res g in
           let tin1 := global s_tin g in
@@ -232,16 +242,18 @@ Definition predict_check (m : module) (host : list str) (k : okind) (g : list (s
 
 Definition check1 (c : c09case) : list N :=
   match c with
-  | StdCase f predict spec touches m host o =>
+  | StdCase f predict spec touches hostin unrooted m host o =>
       if negb (well_scoped m) then [3] else
-      match o with
-      | ObsResource _ => []
-      | ObsCompileError => [3]
-      | ObsPanic => [2]
-      | ObsRun k g l =>
-          (if spec then spec_check f touches k g l else []) ++
-          (if predict then predict_check m host k g l else [])
-      end
+      let codes :=
+        match o with
+        | ObsResource _ => []
+        | ObsCompileError => [3]
+        | ObsPanic => [2]
+        | ObsRun k g l =>
+            (if spec then spec_check f touches hostin k g l else []) ++
+            (if predict then predict_check m host k g l else [])
+        end in
+      if unrooted then map (fun c => if N.eqb c 2 then 10 else c) codes else codes
   end.
 
 Definition check_all := CheckUtil.check_all check1.
@@ -249,7 +261,7 @@ Definition check_all := CheckUtil.check_all check1.
 (* for debugging a case by hand *)
 Definition explain (c : c09case) :=
   match c with
-  | StdCase f _ _ _ m host (ObsRun k g l) =>
+  | StdCase f _ _ _ _ _ m host (ObsRun k g l) =>
       match flat_log l with
       | Some fl =>
           match parse (S (length fl)) fl None [] with
@@ -262,4 +274,4 @@ Definition explain (c : c09case) :=
   | _ => None
   end.
 Definition predict (c : c09case) : presult :=
-  match c with StdCase _ _ _ _ m host _ => eval_program c09_fuel m host end.
+  match c with StdCase _ _ _ _ _ _ m host _ => eval_program c09_fuel m host end.
